@@ -11,11 +11,23 @@
 //!   scale.chk.rrect.confine x y w h <8 radii: tl tr br bl, w h each>
 //!   scale.chk.rrect.contains x y w h <8 radii> px py      scale.chk.rrect.offset x y w h <8 radii> o
 //!   scale.chk.rrect.points x y w h <8 radii> n   (points().take(n))
+//!   scale.chk.sector.contains <sec> px py        scale.chk.sector.offset <sec> o
+//!   scale.chk.sector.points <sec> n              scale.chk.arc.points <sec> n
+//!   scale.chk.sector.styled <sec> bk bnx bny fill stroke width align n     (pixels().take(n))
+//!   scale.chk.arc.styled <sec> fill stroke width align n
+//!     <sec> = x y d start_mdeg sweep_mdeg tag lx ly rx ry: the plane sector (operation tag, left and right normal)
+//!     is what the real `PlaneSector::new` returns in THIS build (hook `verif_hooks::plane_sector`, read by the
+//!     generator, re-read and printed as `ps=` by `execute`); `bk bnx bny` = bevel kind and normal of the styled
+//!     sector (hook `verif_bevel`, read from a small twin with the same angles). Trigonometry is not part of
+//!     these kernels (m_sector.rs).
 use super::{b, biased, coord, gen_simple, guard, lds, ods, pds, rds, K, OFFS, XI, XU};
 use crate::common::*;
+use crate::shapes::{mdeg, parse_style};
 use embedded_graphics::{
+    pixelcolor::Rgb565,
     prelude::*,
-    primitives::{ContainsPoint, CornerRadii, OffsetOutline, RoundedRectangle, Triangle},
+    primitives::{Arc, ContainsPoint, CornerRadii, OffsetOutline, PrimitiveStyle, RoundedRectangle, Sector, Styled, Triangle},
+    verif_hooks,
 };
 
 /// vertex coordinates beyond the display scale that keep walks along the edges short (at most
@@ -360,6 +372,154 @@ pub fn generate(tier: Tier, rng: &mut Rng, emit: &mut dyn FnMut(String)) {
         let k = if all { 5000 } else if far { *rng.pick(&[0i64, 1, 5, 40]) } else { *rng.pick(&[0i64, 1, 5, 40, 300]) };
         emit(format!("scale.chk.rrect.points {} {} {} {} {} {}", x, y, w, h, rd, k));
     }
+
+    // ---- sectors and arcs --------------------------------------------------------------------
+    // `<sec>` tokens for the given circle and angles, with the plane sector of this build
+    let sec = |x: i64, y: i64, d: i64, a: i32, w: i32| -> String {
+        let (tag, l, r) = verif_hooks::plane_sector(mdeg(a), mdeg(w));
+        format!("{} {} {} {} {} {} {} {} {} {}", x, y, d, a, w, tag, l[0], l[1], r[0], r[1])
+    };
+    let bevel = |a: i32, w: i32| -> String {
+        let (k, n, _) = Styled::new(Sector::new(Point::zero(), 10, mdeg(a), mdeg(w)), PrimitiveStyle::with_stroke(Rgb565::from_num(1), 1)).pixels().verif_bevel();
+        format!("{} {} {}", k, n[0], n[1])
+    };
+    const ANG: [i32; 22] = [0, 1, 1000, 30000, 45000, 54000, 55000, 56000, 89000, 90000, 135000, 179000, 180000, 181000, 270000, 304000, 305000, 306000, 359000, 360000, 450000, 720000];
+    let angle = |rng: &mut Rng| -> i32 {
+        let v = if rng.chance(2, 3) { *rng.pick(&ANG) } else { rng.range(0, 720) as i32 * 1000 + rng.range(0, 999) as i32 };
+        if rng.chance(1, 2) {
+            -v
+        } else {
+            v
+        }
+    };
+    // sweeps that contain the top of the circle (270 degrees): the first rows of the box have hits, so
+    // `find` does not scan half a large box before the first point
+    const TOP: [(i32, i32); 6] = [(0, 360000), (180000, 180000), (200000, 100000), (0, -180000), (270000, 45000), (300000, -60000)];
+    // diameters beyond the display scale that end at the first item of the distance iterator
+    const DX: [i64; 12] = [32768, 32769, 40000, 46341, 46342, 65535, 65536, 1 << 30, (1 << 31) - 1, 1 << 31, u32::MAX as i64 - 1, u32::MAX as i64];
+    for (x, y, d, a, w, px, py) in [
+        (0, 0, 10, 0, 90000, 7, 7),
+        (0, 0, 10, 0, 90000, 2, 2),
+        (0, 0, 10, 0, 0, 9, 5),
+        (0, 0, 10, 0, 0, 0, 5),
+        (-1152, -1152, 1280, 45000, -300000, 2176, 2176),
+        (-1152, -1152, 1280, 45000, -300000, -500, -500),
+        (2176, 2176, 1280, 0, 360000, 2800, 2800),
+        (0, 0, 8192, 0, 180000, 8192, 8192),
+        (0, 0, 8192, 0, 180000, 4096, 6000),
+        (-4096, -4096, 8192, 10000, 20000, 3000, -2000),
+        (0, 0, 32767, 0, 90000, 20000, 20000),
+        (0, 0, 32768, 0, 90000, 20000, 20000),
+        (0, 0, 32768, 0, 90000, 0, 0),
+        (0, 0, 32769, 0, 90000, 0, 0),
+        (0, 0, 46341, 0, 90000, 23170, 23170),
+        (0, 0, 65535, 0, 360000, 32767, 32767),
+        (0, 0, 65536, 0, 360000, 32768, 32768),
+        (0, 0, 1, 0, 90000, 1073741823, 0),
+        (0, 0, 1, 0, 90000, 1073741824, 0),
+        (0, 0, 1, 0, 90000, -1073741824, 0),
+        (0, 0, 1, 0, 90000, -1073741825, 0),
+        (1073741823, 0, 1, 0, 90000, 0, 0),
+        (1073741824, 0, 1, 0, 90000, 0, 0),
+        (2147483647, 2147483647, 2, 0, 360000, 2147483647, 2147483647),
+        (0, 0, 4294967295, 0, 90000, 0, 0),
+        (0, 0, 2147483648, 0, 90000, 0, 0),
+    ] {
+        emit(format!("scale.chk.sector.contains {} {} {}", sec(x, y, d, a, w), px, py));
+    }
+    for i in 0..n {
+        let (mut x, mut y, mut d) = (coord(rng), coord(rng), biased(rng));
+        let (mut px, mut py) = (x + rng.range(-2, d + 2), y + rng.range(-2, d + 2));
+        if i % 3 == 2 {
+            match rng.below(5) {
+                0 => x = *rng.pick(&XI),
+                1 => y = *rng.pick(&XI),
+                2 => d = if rng.chance(1, 2) { *rng.pick(&DX) } else { *rng.pick(&XU) },
+                3 => px = *rng.pick(&XI),
+                _ => py = *rng.pick(&XI),
+            }
+            if rng.chance(1, 2) {
+                // a probe inside a large circle: the arithmetic behind the circle test is reached
+                px = (x + d / 2 + rng.range(-3, 3)).clamp(i32::MIN as i64, i32::MAX as i64);
+                py = (y + d / 2 + rng.range(-3, 3)).clamp(i32::MIN as i64, i32::MAX as i64);
+            }
+        }
+        let (a, w) = (angle(rng), angle(rng));
+        emit(format!("scale.chk.sector.contains {} {} {}", sec(x, y, d, a, w), px, py));
+        if i % 4 == 0 {
+            let o = if i % 3 == 2 && rng.chance(1, 2) { *rng.pick(&XI) } else { *rng.pick(&OFFS) };
+            emit(format!("scale.chk.sector.offset {} {}", sec(x, y, d, a, w), o));
+        }
+    }
+    for f in ["0 0 10 0 90000", "0 0 10 2147483647", "0 0 10 -2147483648", "0 0 10 -2147483647", "0 0 4294967295 1", "0 0 4294967294 1", "-2147483648 0 10 1", "2147483647 0 10 -1", "0 0 1 1073741824", "0 0 1 -1073741825"] {
+        let v: Vec<i64> = f.split(' ').map(|x| x.parse().unwrap()).collect();
+        if v.len() == 4 {
+            emit(format!("scale.chk.sector.offset {} {}", sec(v[0], v[1], v[2], 0, 90000), v[3]));
+        }
+    }
+    // points() / styled pixels(): (x y d), angles, count
+    let circle3 = |rng: &mut Rng, i: usize| -> (i64, i64, i64, i32, i32, i64) {
+        let (mut x, mut y) = (coord(rng), coord(rng));
+        match i % 4 {
+            // small circles, any angles, drained
+            0 | 1 => (x, y, rng.range(0, 40), angle(rng), angle(rng), 5000),
+            // display-scale circles, sweeps that contain the top, a prefix
+            2 => {
+                let (a, w) = *rng.pick(&TOP);
+                (x, y, biased(rng), a, w, *rng.pick(&[0i64, 1, 5, 40, 300]))
+            }
+            // beyond the display scale
+            _ => {
+                let (a, w) = *rng.pick(&TOP);
+                let mut d = biased(rng);
+                match rng.below(3) {
+                    0 => x = *rng.pick(&XI),
+                    1 => y = *rng.pick(&XI),
+                    _ => d = if rng.chance(2, 3) { *rng.pick(&DX) } else { *rng.pick(&[1281i64, 2048, 4096, 4097, 8192, 8193, 16384, 32767]) },
+                }
+                (x, y, d, a, w, *rng.pick(&[0i64, 1, 5, 40]))
+            }
+        }
+    };
+    for (x, y, d, a, w, k) in [(0, 0, 10, 0, 90000, 200), (0, 0, 10, 0, 0, 200), (0, 0, 0, 0, 90000, 5), (0, 0, 1, 0, 90000, 5), (-1152, -1152, 1280, 200000, 100000, 40), (2176, 2176, 1280, 0, 360000, 40), (0, 0, 8192, 0, 360000, 40), (0, 0, 32768, 0, 360000, 5), (0, 0, 32769, 0, 360000, 5), (0, 0, 65536, 0, 360000, 5), (0, 0, 4294967295, 0, 360000, 5), (1073741823, 0, 3, 0, 360000, 20), (1073741824, 0, 3, 0, 360000, 20), (0, -1073741824, 3, 0, 360000, 20), (0, -1073741825, 3, 0, 360000, 20), (2147483647, 0, 0, 0, 360000, 5)] {
+        emit(format!("scale.chk.sector.points {} {}", sec(x, y, d, a, w), k));
+        emit(format!("scale.chk.arc.points {} {}", sec(x, y, d, a, w), k));
+    }
+    for i in 0..n / 2 {
+        let (x, y, d, a, w, k) = circle3(rng, i);
+        emit(format!("scale.chk.sector.points {} {}", sec(x, y, d, a, w), k));
+        let (x, y, d, a, w, k) = circle3(rng, i);
+        emit(format!("scale.chk.arc.points {} {}", sec(x, y, d, a, w), k));
+    }
+    // styled: widths beyond the display scale end in `StyledPixelsIterator::new` (count 0 = construction only)
+    const WX: [i64; 16] = [129, 1024, 1025, 16384, 32768, 65535, 65536, 524287, 524288, 524289, 1048575, 1048576, 1048577, (1 << 31) - 1, 1 << 31, u32::MAX as i64];
+    let style = |rng: &mut Rng, width: i64| -> String {
+        let (f, s) = *rng.pick(&[("7", "9"), ("-", "9"), ("7", "-"), ("7", "9"), ("-", "-")]);
+        format!("{} {} {} {}", f, s, width, rng.below(3))
+    };
+    for (wd, al) in [(1048575i64, 0), (1048576, 0), (1048575, 2), (1048576, 2), (524287, 2), (524288, 2), (524289, 2), (2097151, 1), (2097152, 1), (1048576, 1), (4294967295, 0), (4294967295, 1), (4294967295, 2), (2147483647, 0), (2147483648, 2), (0, 1), (128, 0), (128, 2), (127, 1)] {
+        for (a, w) in [(0, 90000), (0, 30000), (10000, 330000), (0, 360000), (45000, -200000)] {
+            emit(format!("scale.chk.sector.styled {} {} 7 9 {} {} 0", sec(3, 4, 9, a, w), bevel(a, w), wd, al));
+            emit(format!("scale.chk.arc.styled {} 7 9 {} {} 0", sec(3, 4, 9, a, w), wd, al));
+        }
+    }
+    for i in 0..n / 2 {
+        let (x, y, d, a, w, mut k) = circle3(rng, i);
+        let mut width = if rng.chance(3, 4) { *rng.pick(&super::WIDTHS) } else { rng.range(0, 128) };
+        if i % 4 == 1 {
+            // small circle, stroke much wider than the shape
+            width = *rng.pick(&[64i64, 127, 128]);
+            k = 300;
+        }
+        if i % 8 == 7 {
+            width = *rng.pick(&WX);
+            k = 0;
+        }
+        let st = style(rng, width);
+        emit(format!("scale.chk.sector.styled {} {} {} {}", sec(x, y, d, a, w), bevel(a, w), st, k));
+        let (x, y, d, a, w, k2) = circle3(rng, i);
+        emit(format!("scale.chk.arc.styled {} {} {}", sec(x, y, d, a, w), st, if width > 128 { 0 } else { k2 }));
+    }
 }
 
 fn tri(t: &mut Toks) -> Triangle {
@@ -372,6 +532,25 @@ fn rrect(t: &mut Toks) -> RoundedRectangle {
 }
 fn fmt_radii(c: &CornerRadii) -> String {
     format!("{},{};{},{};{},{};{},{}", c.top_left.width, c.top_left.height, c.top_right.width, c.top_right.height, c.bottom_right.width, c.bottom_right.height, c.bottom_left.width, c.bottom_left.height)
+}
+/// `<sec>`: the shape arguments and `ps=` as the hook reports the plane sector now
+fn sec_args(t: &mut Toks) -> (Point, u32, i32, i32, String) {
+    let tl = t.point();
+    let d = t.u32();
+    let (a, w) = (t.i32(), t.i32());
+    for _ in 0..5 {
+        t.str();
+    }
+    let (tag, l, r) = verif_hooks::plane_sector(mdeg(a), mdeg(w));
+    (tl, d, a, w, format!("ps={},{},{},{},{}", tag, l[0], l[1], r[0], r[1]))
+}
+fn fmt_pixels<I: Iterator<Item = Pixel<Rgb565>>>(it: I) -> String {
+    let v: Vec<String> = it.map(|Pixel(p, c)| format!("{},{},{}", p.x, p.y, c.num())).collect();
+    if v.is_empty() {
+        "-".to_string()
+    } else {
+        v.join(";")
+    }
 }
 fn tri_ds(t: &Triangle) -> bool {
     t.vertices.iter().all(|p| lds(*p))
@@ -431,6 +610,51 @@ pub fn execute(kernel: &str, t: &mut Toks) -> Option<(String, bool)> {
             let rr = rrect(t);
             let n = t.usize();
             (guard(|| fmt_pts(rr.points().take(n).collect::<Vec<Point>>())), rds(&rr.rectangle))
+        }
+        "sector.contains" => {
+            let (tl, d, a, w, ps) = sec_args(t);
+            let p = t.point();
+            (guard(|| format!("{} r={}", ps, b(Sector::new(tl, d, mdeg(a), mdeg(w)).contains(p)))), lds(tl) && d <= 1024 && pds(p))
+        }
+        "sector.offset" => {
+            let (tl, d, a, w, _) = sec_args(t);
+            let o = t.i32();
+            (
+                guard(|| {
+                    let s = Sector::new(tl, d, mdeg(a), mdeg(w)).offset(o);
+                    format!("{},{},{}", s.top_left.x, s.top_left.y, s.diameter)
+                }),
+                lds(tl) && d <= 1024 && ods(o),
+            )
+        }
+        "sector.points" => {
+            let (tl, d, a, w, ps) = sec_args(t);
+            let n = t.usize();
+            (guard(|| format!("{} pts={}", ps, fmt_pts(Sector::new(tl, d, mdeg(a), mdeg(w)).points().take(n).collect::<Vec<Point>>()))), lds(tl) && d <= 1024)
+        }
+        "arc.points" => {
+            let (tl, d, a, w, ps) = sec_args(t);
+            let n = t.usize();
+            (guard(|| format!("{} pts={}", ps, fmt_pts(Arc::new(tl, d, mdeg(a), mdeg(w)).points().take(n).collect::<Vec<Point>>()))), lds(tl) && d <= 1024)
+        }
+        "sector.styled" => {
+            let (tl, d, a, w, ps) = sec_args(t);
+            let bv = format!("bv={},{},{}", t.str(), t.str(), t.str());
+            let style = parse_style(t);
+            let n = t.usize();
+            (
+                guard(|| format!("{} {} px={}", ps, bv, fmt_pixels(Styled::new(Sector::new(tl, d, mdeg(a), mdeg(w)), style).pixels().take(n)))),
+                lds(tl) && d <= 1024 && style.stroke_width <= 128,
+            )
+        }
+        "arc.styled" => {
+            let (tl, d, a, w, ps) = sec_args(t);
+            let style = parse_style(t);
+            let n = t.usize();
+            (
+                guard(|| format!("{} px={}", ps, fmt_pixels(Styled::new(Arc::new(tl, d, mdeg(a), mdeg(w)), style).pixels().take(n)))),
+                lds(tl) && d <= 1024 && style.stroke_width <= 128,
+            )
         }
         _ => return None,
     })
